@@ -58,11 +58,11 @@ func ruleC10R1(r *Run) {
 				continue
 			}
 			// deferred after cleanup ⇒ runs before cleanup: must not invoke user code
-			var f *ssa.Function
-			if sc := d.Common().StaticCallee(); sc != nil {
-				f = sc
-			} else if mc, ok := d.Common().Value.(*ssa.MakeClosure); ok {
-				f = mc.Fn.(*ssa.Function)
+			f := deferredFn(p, d)
+			if f == nil {
+				if sc := d.Common().StaticCallee(); sc != nil {
+					f = sc
+				}
 			}
 			bad := f == nil
 			if f != nil && p.inRapid(f) {
@@ -415,14 +415,13 @@ func ruleC10R4(r *Run) {
 	found := false
 	for _, cs := range p.calls(v.fn) {
 		d, ok := cs.Instr.(*ssa.Defer)
-		if !ok {
+		if !ok || cs.Fn != v.fn {
 			continue
 		}
-		mc, ok := d.Common().Value.(*ssa.MakeClosure)
-		if !ok {
+		f := deferredFn(p, d)
+		if f == nil || f == v.fn {
 			continue
 		}
-		f := mc.Fn.(*ssa.Function)
 		for _, rc := range p.callsTo(f, "(*T).cleanup") {
 			ls := p.lockSets(f)
 			okGuard := false
@@ -547,7 +546,7 @@ func ruleC10R6(r *Run) {
 	p := r.P
 	n := 0
 	for _, fn := range p.FuncList {
-		for _, b := range fn.Blocks {
+		for _, b := range p.body(fn) {
 			for _, in := range b.Instrs {
 				if g, ok := in.(*ssa.Go); ok {
 					n++
@@ -560,7 +559,7 @@ func ruleC10R6(r *Run) {
 	r.positiveExample("go-statement", "package pos\nfunc f() { go func() {}() }\n", func(q *Program) int {
 		c := 0
 		for _, fn := range q.FuncList {
-			for _, b := range fn.Blocks {
+			for _, b := range p.body(fn) {
 				for _, in := range b.Instrs {
 					if _, ok := in.(*ssa.Go); ok {
 						c++
